@@ -11,7 +11,7 @@ def run(tier, seed):
     cfg = "MC_HistPool_c06q" if tier == "quick" else "MC_HistPool_c06t"
     emb = [("dyadic", 0), ("neg", 1)] if tier == "quick" else [("dyadic", 0), ("neg", 1), ("ulp", 2), ("int", 0)]
     run_pool(ctx, cfg, ["New", "Mul", "IMul", "Div", "IDiv", "Normalize", "NegRefused", "ForeignRefused", "Copy"], VIEW, emb,
-             budget=60000 if tier == "quick" else 400000)
+             budget=60000 if tier == "quick" else 400000, free_too=True)
     # HistogramCollection: normalize_bins (shares per bin), sum, copy
     run_pool(ctx, "MC_HistPool_collq", ["New", "CollSum", "CollNormBins", "CollCopyFill", "Fill"], VIEW, [("dyadic", 0), ("ulp", 1)])
     nd_part(ctx, tier)
